@@ -106,6 +106,7 @@ pub fn record(args: &Args) {
     let mut runs = 0;
     let mut events = 0;
     let mut samples: Vec<Value> = Vec::new();
+    let mut failed: Vec<Value> = Vec::new();
     for id in 0..n {
         let mut r = rng.fork();
         let cfg = GenCfg {
@@ -115,11 +116,25 @@ pub fn record(args: &Args) {
         };
         let mut t: Tree = tree::gen_tree(&mut r, &cfg);
         tree::shorten(&mut t);
-        let game = tree::build(&t).expect("generated game must be valid");
+        let game = match tree::build(&t) {
+            Ok(g) => g,
+            Err(e) => {
+                failed.push(json!({"what": "a valid generated game was rejected by from_root", "error": format!("{e:?}"), "tree": t}));
+                continue;
+            }
+        };
         // imported integer profiles: pure, sparse, full
         for style in 0..3 {
             let prof = tree::gen_profile(&mut r, &t, style, false);
-            let strat = game.from_named(tree::named(&t, &prof)).expect("generated profile");
+            // a complete profile that names every infoset of either player (single-action ones included) once
+            let strat = match game.from_named(tree::named(&t, &prof)) {
+                Ok(s) => s,
+                Err(e) => {
+                    failed.push(json!({"what": "a complete profile over exactly the game's infosets was rejected by from_named",
+                        "error": format!("{e:?}"), "tree": t, "profile": tree::named(&t, &prof)}));
+                    continue;
+                }
+            };
             events += record_profile(&mut out, &game, &strat, "imported");
             runs += 1;
             // truncated
@@ -188,5 +203,5 @@ pub fn record(args: &Args) {
             samples.push(json!({"tree": t, "method": format!("{method:?}"), "iters": iters}));
         }
     }
-    println!("{}", json!({"runs": runs, "events": events, "samples": samples}));
+    println!("{}", json!({"runs": runs, "events": events, "samples": samples, "failed": failed}));
 }
